@@ -378,6 +378,14 @@ def c20_symbolic(cfg):
             D = sympy.Symbol("Delta", real=True)
             H = sympy.Matrix([[w * Na, g * a], [2 * g * Dagger(a), w * Na + D]])
             run = first_use(lambda: block_diagonalize(H, subspace_indices=[0, 1], symbols=[g], hermitian=True), [(0, (0, 0, 2))])
+        elif which == "nonhermitian_operator_list":
+            run = first_use(lambda: block_diagonalize([w * Na, a], symbols=[g], hermitian=True), [(0, (0, 0, 1)), (0, (0, 0, 2))])
+        elif which == "nonhermitian_operator_dict":
+            run = first_use(lambda: block_diagonalize({sympy.S.One: w * Na, g: a + 2 * Dagger(a)}, symbols=[g], hermitian=True), [(0, (0, 0, 1)), (0, (0, 0, 2))])
+        elif which == "mask_selects_number_conserving_term":
+            # the mask selects a number-conserving term of a diagonal element: it connects a level with itself and cannot be eliminated
+            H = w * Na + g * (Na + a + Dagger(a))
+            run = first_use(lambda: block_diagonalize(H, symbols=[g], fully_diagonalize=a + Dagger(a) + Dagger(a) * a, hermitian=True), [(0, (0, 0, 1)), (1, (0, 0, 1)), (0, (0, 0, 2))])
         elif which == "nonhermitian_sympy_list":
             run = first_use(lambda: block_diagonalize([sympy.diag(0, 1), sympy.Matrix([[0, 1], [3, 0]])], subspace_indices=[0, 1], hermitian=True), [(0, (0, 0, 2))])
         elif which == "nonhermitian_sympy_dict":
@@ -581,7 +589,7 @@ def configs(tier):
         for herm in (True, False):
             S(kind="second_quantized", which=which, hermitian=herm)
     for which in ("asymmetric_operator_mask", "asymmetric_operator_matrix_mask", "nonhermitian_operator_expression", "nonhermitian_operator_matrix",
-                  "nonhermitian_sympy_list", "nonhermitian_sympy_dict"):
+                  "nonhermitian_sympy_list", "nonhermitian_sympy_dict", "nonhermitian_operator_list", "nonhermitian_operator_dict", "mask_selects_number_conserving_term"):
         S(kind="second_quantized", which=which, hermitian=True)
     for order in (1, 2, 3):
         for how in ("real_asym", "complex_diag"):
